@@ -218,6 +218,20 @@ fn parse_plain_word(ctx: &mut EvalPtr) -> Result<Word, Exception> {
 /// Parses a braced word from the input.  It's an error if the there are any non-whitespace
 /// characters following the close brace, or if the close brace is missing.
 pub(crate) fn parse_braced_word(ctx: &mut EvalPtr) -> Result<Word, Exception> {
+    let word = parse_braced_string(ctx)?;
+
+    // We should either see more more whitespace, or we should be at the end of the
+    // command.  Otherwise, there are incorrect characters following the close-brace.
+    if ctx.at_end_of_command() || ctx.next_is_line_white() {
+        Ok(word)
+    } else {
+        molt_err!("extra characters after close-brace")
+    }
+}
+
+/// Parses a braced string from the input, through its close brace; what follows the
+/// close brace is the caller's concern.  It's an error if the close brace is missing.
+pub(crate) fn parse_braced_string(ctx: &mut EvalPtr) -> Result<Word, Exception> {
     // FIRST, skip the opening brace, and count it; non-escaped braces need to
     // balance.
     ctx.skip_char('{');
@@ -238,18 +252,10 @@ pub(crate) fn parse_braced_word(ctx: &mut EvalPtr) -> Result<Word, Exception> {
             if count > 0 {
                 ctx.skip();
             } else {
-                // We've found and consumed the closing brace.  We should either
-                // see more more whitespace, or we should be at the end of the list
-                // Otherwise, there are incorrect characters following the close-brace.
+                // We've found the closing brace.
                 text.push_str(ctx.token(start));
-                let result = Ok(Word::Value(Value::from(text)));
                 ctx.skip(); // Skip the closing brace
-
-                if ctx.at_end_of_command() || ctx.next_is_line_white() {
-                    return result;
-                } else {
-                    return molt_err!("extra characters after close-brace");
-                }
+                return Ok(Word::Value(Value::from(text)));
             }
         } else if ctx.next_is('\\') {
             text.push_str(ctx.token(start));
@@ -278,6 +284,19 @@ pub(crate) fn parse_braced_word(ctx: &mut EvalPtr) -> Result<Word, Exception> {
 /// an error if the there are any non-whitespace characters following the close quote, or
 /// if the close quote is missing.
 pub(crate) fn parse_quoted_word(ctx: &mut EvalPtr) -> Result<Word, Exception> {
+    let word = parse_quoted_string(ctx)?;
+
+    if !ctx.at_end_of_command() && !ctx.next_is_line_white() {
+        molt_err!("extra characters after close-quote")
+    } else {
+        Ok(word)
+    }
+}
+
+/// Parses a quoted string, handling backslash, variable, and command substitution, through
+/// its close quote; what follows the close quote is the caller's concern.  It's an error if
+/// the close quote is missing.
+pub(crate) fn parse_quoted_string(ctx: &mut EvalPtr) -> Result<Word, Exception> {
     // FIRST, consume the the opening quote.
     ctx.next();
 
@@ -310,11 +329,7 @@ pub(crate) fn parse_quoted_word(ctx: &mut EvalPtr) -> Result<Word, Exception> {
                 tokens.push_str(ctx.token(start));
             }
             ctx.skip_char('"');
-            if !ctx.at_end_of_command() && !ctx.next_is_line_white() {
-                return molt_err!("extra characters after close-quote");
-            } else {
-                return Ok(tokens.take());
-            }
+            return Ok(tokens.take());
         } else {
             ctx.skip();
         }
